@@ -26,7 +26,7 @@ EXPLANATION = (
     "commands of the model; this run ties the model to the real dispatcher and evaluates authSpec on the implementation."
 )
 ASSUMPTIONS = ["shipped MemoryUserManager; no per-user connection limits in these tables (limits are C10)"]
-GENERATED_OBLIGATIONS = ["Verb.guards (decorator stacks of all handlers)"]
+GENERATED_OBLIGATIONS = ["Verb.guards (decorator stacks of all handlers)", "Server.dispatcherOneCommandAtATime (handlers of pipelined lines start in order, one at a time)"]
 
 # a third table: a password with non-ASCII characters (a comparison that folds or replaces them accepts neighbours)
 USERS_UNI = [W.UserSpec("zoë", "pässwörd", home="/d"), W.UserSpec("bob", None)]
@@ -226,7 +226,9 @@ def _late(ctx):
     from props import late_common as LC
 
     users, bases = LC.c03_users()
-    return LC.run_family(ctx, "C03", LC.c03_plans(ctx), lambda p: (users, bases, LC.C03_TREE, p, ["USER bob"]), LC.c03_oracle)
+    r = LC.run_family(ctx, "C03", LC.c03_plans(ctx), lambda p: (users, bases, LC.C03_TREE, p, ["USER bob"]), LC.c03_oracle)
+    r.merge(LC.run_family(ctx, "C03", LC.c03_pipe_plans(ctx), lambda p: (users, bases, LC.C03_TREE, p, ["USER bob"]), LC.c03_pipe_oracle))
+    return r
 
 
 def _lockstep(ctx):
@@ -306,7 +308,8 @@ def replay(ctx, doc):
         plan = [tuple(x) for x in inp["late_plan"]]
         us, bases = LC.c03_users()
         recs = LW.run_plan((us, bases, LC.C03_TREE, plan, ["USER bob"]))
-        f = LC.c03_oracle(plan, recs) if not isinstance(recs, str) else {"what": recs}
+        orc = LC.c03_pipe_oracle if any(st[0] == "pipe" for st in plan) else LC.c03_oracle
+        f = orc(plan, recs) if not isinstance(recs, str) else {"what": recs}
         print("plan:", plan)
         print("oracle:", f)
         return f is not None
